@@ -77,7 +77,8 @@ def graph_half(tier, v, stats, seed):
                 dirrec = {"abs": True, "cs": [list("cwd"), list("out")]} if dirtext.startswith("{ABS}") else {"abs": False, "cs": path_cs(dirtext, g)}
                 info = obs[u.name]["info"]
                 reported = [path_cs(x[1], g) for x in info["deps"]["ok"]] if "ok" in info["deps"] else []
-                recs.append({"edge": case["edge"], "d_et": d_et, "r_et": r_et, "dir": dirrec, "changed": [path_cs(p, g) for p in changed],
+                d_chars = list("RenD@") if case["dplace"].startswith("renamed_expr") else list("D@")
+                recs.append({"edge": case["edge"], "d_chars": d_chars, "d_et": d_et, "r_et": r_et, "dir": dirrec, "changed": [path_cs(p, g) for p in changed],
                              "removed": [path_cs(p, g) for p in removed], "reported": reported, "ok": res[u.name] == "Ok"})
                 meta.append((case, u, changed, removed, res[u.name]))
             tp = os.path.join(vlib.TMP, "reach-trace.ndjson")
